@@ -189,4 +189,36 @@ func init() {
 				Quick: map[string]int{"K": 2, "NT": 16, "FMT": 1}, Thorough: map[string]int{"K": 3, "NT": 16, "FMT": 1}, MaxSteps: 20_000_000},
 		},
 	})
+
+	// ---------------------------------------------------------------- C34
+	register(&checkSpec{
+		ID:   "C34",
+		Rule: "directory listings of up to K entries; each name = concrete prefix (one of \"\", _, gop_autogen, main, a, gop_autogen_x; symbolic selector) + up to L symbolic bytes, IsDir symbolic; the real ParseFSDir/ParseFSFile/defaultClassKind/reqPkg/go/parser run over a harness FileSystem; compared with the statement written as a reference function of (name, isDir, class-kind, ParseGoAsGoPlus)",
+		Assumptions: []string{
+			"bound: K entries, names = prefix + <= L ASCII bytes without '/' and NUL, names distinct and non-empty",
+			"class-kind configurations: nil (defaultClassKind executed) and one custom extension rule (*.tx class, main.tx project); Filter nil",
+			"file contents are the concrete source 'package foo' (parsing itself is C13's subject)",
+		},
+		Harnesses: []harnessSpec{
+			{Name: "VxC34", Pkg: "github.com/goplus/xgo/parser", Files: []string{"c34/c34.go"},
+				Quick: map[string]int{"K": 2, "L": 4}, Thorough: map[string]int{"K": 2, "L": 5},
+				Variants: []map[string]int{{"CK": 0}, {"CK": 1}}, MaxSteps: 3_000_000},
+		},
+	})
+
+	// ---------------------------------------------------------------- C36
+	register(&checkSpec{
+		ID:   "C36",
+		Rule: "two arbitrary directory states A and B (the hash is a function of the state, so any history of creations/edits/renames/deletions reduces to a pair of states): up to K entries each, names = concrete prefix (\"\", _, a, a_test, m.) + up to L symbolic bytes, IsDir, size and mtime symbolic; the real dirHash/canCl/path.Ext/modfile.ClassExt and the fmt.Fprintf record format run over a listing model; assert transcripts equal <=> relevant projections equal (both directions)",
+		Assumptions: []string{
+			"sha256 replaced by a transcript recorder: hash equality is identified with equality of the hashed bytes (no SHA-256 collisions)",
+			"os.ReadDir replaced by a listing model returning distinct names in sorted order; Info() never fails; Module.IsClass replaced by the default module's class extensions (.spx .gsh _test.gox) - both stubs are cross-validated natively each run (real directories, real os.ReadDir/sha256/default module) on sampled path models",
+			"bound: K entries per state, names of prefix + <= L printable ASCII bytes without '/', sizes in [0,R], mtimes 1s + [1,R] ns (keeps UnixNano linear: no symbolic multiplication by 1e9); names containing TAB/LF (which could alias two records of the file\\t%s\\t%x\\t%x\\n format) are outside the bound",
+		},
+		Harnesses: []harnessSpec{
+			{Name: "VxC36", Pkg: "github.com/goplus/xgo/tool", Files: []string{"c36/c36.go"},
+				Quick: map[string]int{"K": 1, "L": 3, "R": 300}, Thorough: map[string]int{"K": 2, "L": 1, "R": 20}, MaxSteps: 3_000_000,
+				Overrides: map[string]string{"os.ReadDir": "vxReadDir", "crypto/sha256.New": "vxNewHash", "(*github.com/goplus/mod/xgomod.Module).IsClass": "vxIsClass"}},
+		},
+	})
 }
